@@ -123,7 +123,23 @@ void check_C03(Src &s, Ctx &ctx) {
     std::vector<double> np = g.getPoints(); VF_REQUIRE("C03.sizes", (int)np.size() == N * d && (g.getNumLoaded() == 0 ? g.getNumNeeded() == N : g.getNumNeeded() == 0), "getPoints has " << np.size() << " numbers for " << N << " points (loaded " << g.getNumLoaded() << ", needed " << g.getNumNeeded() << ")");
     std::vector<double> vals((size_t)N * (size_t)m); std::vector<LD> vmax((size_t)m, 0);
     for (int i = 0; i < N; i++) for (int k = 0; k < m; k++) { double v = (double)eval_fn(fns[(size_t)k], &np[(size_t)i * (size_t)d], sp); vals[(size_t)i * (size_t)m + (size_t)k] = v; vmax[(size_t)k] = std::max(vmax[(size_t)k], fabsl((LD)v)); }
-    g.loadNeededValues(vals);
+    // the nodal values are supplied either in one batch or, for a quarter of the fresh nested grids, through dynamic construction in a
+    // generated single-sample / small-batch order (loadConstructedPoints is the other documented way of supplying model values)
+    bool via_construction = g.getNumLoaded() == 0 && sp.nested() && sp.conformal.empty() && N <= 150 && s.chance(1, 4);
+    if (via_construction) {
+        std::vector<size_t> ord((size_t)N); for (size_t i = 0; i < (size_t)N; i++) ord[i] = i;
+        int omode = s.pick(4);   // 0 shuffled; 1 / 2: reference order with the points on the lower / upper bound of some direction delivered last; 3 reversed
+        if (omode == 0) { for (size_t i = (size_t)N; i > 1; i--) std::swap(ord[i - 1], ord[((size_t)s.byte() * 251 + i * 7) % i]); }
+        else if (omode == 3) std::reverse(ord.begin(), ord.end());
+        else { std::vector<double> ext((size_t)d); for (int j = 0; j < d; j++) { ext[(size_t)j] = np[(size_t)j]; for (int i = 0; i < N; i++) ext[(size_t)j] = (omode == 1) ? std::min(ext[(size_t)j], np[(size_t)i * (size_t)d + (size_t)j]) : std::max(ext[(size_t)j], np[(size_t)i * (size_t)d + (size_t)j]); }
+            std::stable_partition(ord.begin(), ord.end(), [&](size_t i) { for (int j = 0; j < d; j++) if (np[i * (size_t)d + (size_t)j] == ext[(size_t)j]) return false; return true; }); }
+        g.beginConstruction(); size_t pos = 0;
+        while (pos < (size_t)N) { size_t bs = std::min<size_t>((size_t)N - pos, 1 + (size_t)(s.byte() % 3 == 0 ? s.pick(4) : 0)); std::vector<double> x, y;
+            for (size_t q = 0; q < bs; q++) { size_t i = ord[pos + q]; x.insert(x.end(), np.begin() + (long)(i * (size_t)d), np.begin() + (long)((i + 1) * (size_t)d)); y.insert(y.end(), vals.begin() + (long)(i * (size_t)m), vals.begin() + (long)((i + 1) * (size_t)m)); }
+            if (bs == 1) g.loadConstructedPoints(x.data(), 1, y.data()); else g.loadConstructedPoints(x, y); pos += bs; }
+        g.finishConstruction(); ctx.log("values supplied through dynamic construction in a shuffled order"); ctx.label("load:construction");
+        if (g.getNumLoaded() != N) throw Discard("construction did not load every point (C09 territory)");
+    } else g.loadNeededValues(vals);
     pts = g.getPoints();
     for (size_t i = 0; i < pts.size(); i++) VF_REQUIRE("C03.point-order", std::memcmp(&pts[i], &np[i], sizeof(double)) == 0, "getPoints after loading differs from getPoints before it at entry " << i);
     const double *coef = g.getHierarchicalCoefficients(); const bool fourier = fam == F_FOURIER;
